@@ -13,38 +13,39 @@ Section Roundtrip.
   Hypothesis channel_rt : forall n, (n < 16)%N -> de_channel (jn n) = Some n.
   Hypothesis cn_rt : forall n, (n < 128)%N -> de_cn (jn n) = Some n.
 
-  Lemma raw_roundtrip s a c :
+  Lemma raw_roundtrip shape s a c :
+    String.eqb shape "derive" = false ->
     valid3 (s, a, c) = true ->
-    de_raw de_u7 "try_from:(u8,U7,U7)" (ser_raw (s, a, c)) = Some (s, a, c).
+    de_raw de_u7 shape (ser_raw (s, a, c)) = Some (s, a, c).
   Proof.
-    intros Hv. apply valid3_bounds in Hv as (H1 & H2 & Ha & Hc).
+    intros Hd Hv. apply valid3_bounds in Hv as (H1 & H2 & Ha & Hc).
     unfold ser_raw, de_raw. rewrite (u7_rt a Ha), (u7_rt c Hc).
     unfold de_u8, de_int, jn.
     destruct (Z.leb_spec 0 (Z.of_N s)); [|lia]. destruct (Z.leb_spec (Z.of_N s) 255); [|lia].
-    cbn [andb String.eqb Ascii.eqb Bool.eqb]. rewrite N2Z.id.
+    cbn [andb]. rewrite Hd, N2Z.id.
     rewrite extract_type_table by assumption.
     destruct (type_table_some s H1 H2) as [t ->]. reflexivity.
   Qed.
 
   Lemma cc14_roundtrip shape ch n v :
-    prefix "try_from:" shape = true -> String.eqb shape "derive" = false ->
+    String.eqb shape "derive" = false ->
     (ch < 16)%N -> (n < 32)%N -> (v < 16384)%N ->
     de_cc14 de_u14 de_channel de_cn shape (ser_cc14 (mkCC14 ch n v)) = Some (mkCC14 ch n v).
   Proof.
-    intros Hp Hd Hc Hn Hv. unfold de_cc14, ser_cc14. cbn [cc_channel cc_msb_cn cc_value].
+    intros Hd Hc Hn Hv. unfold de_cc14, ser_cc14. cbn [cc_channel cc_msb_cn cc_value].
     assert (E : struct_fields ["channel"; "msb_controller_number"; "value"]
                   (jobj [("channel", jn ch); ("msb_controller_number", jn n); ("value", jn v)])
                 = Some [jn ch; jn n; jn v]) by reflexivity.
-    rewrite E. rewrite (channel_rt ch Hc), (cn_rt n ltac:(lia)), (u14_rt v Hv), Hd, Hp.
+    rewrite E. rewrite (channel_rt ch Hc), (cn_rt n ltac:(lia)), (u14_rt v Hv), Hd.
     unfold cc14_new, corresponding_lsb. destruct (N.leb_spec 32 n); [lia|reflexivity].
   Qed.
 
   Lemma pn_roundtrip shape m :
-    prefix "try_from:" shape = true -> String.eqb shape "derive" = false ->
+    String.eqb shape "derive" = false ->
     pnmsg_wf m = true ->
     de_pn de_u14 de_channel shape (ser_pn m) = Some m.
   Proof.
-    intros Hp Hd Hwf. destruct m as [ch num v reg w dt].
+    intros Hd Hwf. destruct m as [ch num v reg w dt].
     unfold pnmsg_wf in Hwf. cbn [pn_channel pn_number pn_value pn_is_14_bit pn_data_type] in Hwf.
     apply andb_true_iff in Hwf as [Hwf H3]. apply andb_true_iff in Hwf as [H1 H2].
     apply N.ltb_lt in H1, H2.
@@ -60,7 +61,7 @@ Section Roundtrip.
     { destruct w; [apply andb_true_iff in H3 as [H3 _]|]; apply N.ltb_lt in H3; lia. }
     rewrite (u14_rt v Hv). cbn [de_bool].
     assert (Ed : de_datatype (ser_datatype dt) = Some dt) by (destruct dt; reflexivity).
-    rewrite Ed, Hd, Hp. unfold pn_consistent. cbn [pn_is_14_bit pn_data_type pn_value].
+    rewrite Ed, Hd. unfold pn_consistent. cbn [pn_is_14_bit pn_data_type pn_value].
     destruct w.
     - apply andb_true_iff in H3 as [_ H3]. rewrite H3. reflexivity.
     - rewrite H3. reflexivity.
